@@ -112,4 +112,60 @@ mod verif_witness_c09_sweep {
         }
         assert_eq!(bad, 0);
     }
+
+    /// "a following go without a new position command searches the same position as before (its bestmove is legal there and
+    /// its depth-1 score equals that of a fresh engine given that position)" — for positions WITH repetition history, where
+    /// the draw rules make the answer depend on more than the board: sweep over interruption points, then `go depth 1`
+    #[test]
+    fn verif_witness_c09_interruption_then_depth_one() {
+        use inkayaku_uci::Score;
+        fn depth_one(search: &mut Search<CommandUciTx, SimpleHeuristic, MvvLvaMoveOrder>, uci_rx: &std::sync::mpsc::Receiver<UciTxCommand>) -> (Option<String>, Option<Score>) {
+            while uci_rx.try_recv().is_ok() {}
+            search.params.go = Go { depth: Some(1), ..Go::default() };
+            search.reset_for_go();
+            search.state.is_running = true;
+            let (best, _ponder) = search.best_move();
+            search.state.is_running = false;
+            let mut score = None;
+            while let Ok(c) = uci_rx.try_recv() { if let UciTxCommand::Info { info } = c { if info.depth == Some(1) && info.score.is_some() { score = info.score; } } }
+            (best.map(|m| m.to_string()), score)
+        }
+        let mut bad = 0;
+        for (fen, moves) in [
+            // the position after the list has occurred twice; one root move completes a threefold
+            ("5rk1/5r2/p7/2p1p1q1/N1P1P2p/1P3P1P/P4RP1/5RK1 w - - 0 28", &["a4b6", "g5e3", "b6d5", "e3g5", "d5b6", "g5e3", "b6d5", "e3g5"][..]),
+            ("4k3/8/8/8/8/8/3Q4/4K3 w - - 6 30", &["e1e2", "e8e7", "e2e1", "e7e8", "e1e2", "e8e7", "e2e1", "e7e8"][..]),
+        ] {
+            let parsed = Fen::from_str(fen).unwrap();
+            let (uci_tx0, uci_rx0) = channel();
+            let (_tx0, search_rx0) = channel();
+            let mut fresh = Search::new(Arc::new(CommandUciTx::new(uci_tx0)), search_rx0, SimpleHeuristic, MvvLvaMoveOrder, EngineOptions::default());
+            fresh.set_position_from(parsed.clone(), moves.iter().map(|s| UciMove::parse(s).unwrap()).collect());
+            let expect = depth_one(&mut fresh, &uci_rx0);
+            let mut n: u64 = 500;
+            while n < 40_000 {
+                let (uci_tx, uci_rx) = channel();
+                let (search_tx, search_rx) = channel();
+                let mut search = Search::new(Arc::new(CommandUciTx::new(uci_tx)), search_rx, SimpleHeuristic, MvvLvaMoveOrder, EngineOptions::default());
+                search.set_position_from(parsed.clone(), moves.iter().map(|s| UciMove::parse(s).unwrap()).collect());
+                for _round in 1..=2 {
+                    search_tx.send(SearchMessage::UciStop).unwrap();
+                    search.params.go = Go { infinite: true, ..Go::default() };
+                    search.reset_for_go();
+                    search.state.metrics.last.negamax_nodes = 100_000 - n;
+                    search.state.is_running = true;
+                    let _ = search.best_move();
+                    search.state.is_running = false;
+                }
+                let got = depth_one(&mut search, &uci_rx);
+                if got != expect {
+                    if bad < 5 { println!("FAILING-INPUT: fen={:?} moves={:?}: after two searches interrupted {} nodes in, `go depth 1` answers {:?}; a fresh engine given the same position answers {:?}", fen, moves, n, got, expect); }
+                    bad += 1;
+                    break;
+                }
+                n += 3491;
+            }
+        }
+        assert_eq!(bad, 0);
+    }
 }
